@@ -162,7 +162,7 @@ Boolean Double_2_ieee2(Double inp, Byte* pDest, Boolean NeedsBig) {
     Word     Sign;
     Integer  Exponent;
     LongWord Mantissa, Fraction;
-    Boolean  RoundUp;
+    Boolean  RoundUp, IsDenormal;
 
 #if DBG_FLOAT
     fprintf(stderr, "(0) %g\n", inp);
@@ -233,6 +233,27 @@ Boolean Double_2_ieee2(Double inp, Byte* pDest, Boolean NeedsBig) {
             Mantissa, Exponent, Fraction);
 #endif
 
+    /* (1g) Results below the normal range of FP16 are stored as denormals with a fixed
+       exponent of 2^(-14): denormalize *before* rounding, so the rounding decision is
+       made at the last bit that is actually stored.  Bits shifted out are remembered
+       in Fraction (sticky). */
+
+    IsDenormal = (Exponent < -14);
+    if (IsDenormal) {
+        int Shift = -14 - Exponent;
+
+        if (Shift > 31) {
+            Fraction |= Mantissa;
+            Mantissa = 0;
+        } else {
+            if (Mantissa & ((1ul << Shift) - 1)) {
+                Fraction |= 1;
+            }
+            Mantissa >>= Shift;
+        }
+        Exponent = -15;
+    }
+
     /* (2) Round-to-the-nearest for FP16: */
 
     /* Bits 27..18 of fractional part of mantissa will make it into dest, so the decision
@@ -258,6 +279,10 @@ Boolean Double_2_ieee2(Double inp, Byte* pDest, Boolean NeedsBig) {
         if (Mantissa & 0x20000000ul) {
             Mantissa >>= 1;
             Exponent++;
+        }
+        /* largest denormal rounded up to the smallest normal number */
+        if (IsDenormal && (Mantissa & 0x10000000ul)) {
+            Exponent = -14;
         }
     }
 #if DBG_FLOAT
@@ -291,7 +316,7 @@ Boolean Double_2_ieee2(Double inp, Byte* pDest, Boolean NeedsBig) {
            So if we end up with an exponent of 2^(-15), convert
            mantissa so it corresponds to 2^(-14): */
 
-        else if (Exponent == -15) {
+        else if ((Exponent == -15) && !IsDenormal) {
             Mantissa >>= 1;
         }
 
